@@ -524,7 +524,7 @@ DAMAGES = ["dup-attr-expanded-inherited", "rename-etag", "delete-etag", "duplica
            "dup-attr-qname", "dup-attr-expanded", "dup-prefix-decl", "undeclared-elem-prefix", "undeclared-attr-prefix",
            "raw-lt", "raw-amp", "cdata-end-in-text", "unterminated-comment", "double-dash-comment", "unterminated-pi", "unterminated-cdata",
            "unterminated-ref", "unknown-entity", "bad-charref-syntax", "nonchar-ref", "dtd", "version-1.1", "dup-xml-id", "unclosed-root",
-           "etag-other-prefix-same-ns", "truncated-stag", "lt-in-attr", "prefix-after-scope", "charref-overflow", "dup-xml-id-other-prefix", "pi-target-xml-case"]
+           "etag-other-prefix-same-ns", "truncated-stag", "lt-in-attr", "prefix-after-scope", "charref-overflow", "dup-xml-id-other-prefix", "pi-target-xml-case", "unterminated-ref-long"]
 
 NONCHARS = [0, 1, 8, 11, 0xFFFE, 0xFFFF, 0xD800, 0x110000]
 
@@ -742,6 +742,11 @@ def damage(toks, kind, rnd, mode="doc"):
         t[i]["parts"][1]["s"] = cps("e1:" + ln)
         t[j]["px"] = "e2"
         t[j]["parts"][1]["s"] = cps("e2:" + ln)
+    elif kind == "unterminated-ref-long" and content_pos:
+        # a raw '&' that is never closed, followed by a long run in which multi-byte characters sit at every small offset
+        # (whatever the parser does with the text behind the error position, it must not trip over a character boundary)
+        tail = "a" * rnd.randrange(20, 40) + "".join(rnd.choice(["\u00e9", "\u65e5", "\U0001F600"]) for _ in range(12)) + " y"
+        t.insert(rnd.choice(content_pos), junk("x&" + tail, "unterminated-ref"))
     elif kind == "pi-target-xml-case":
         # the reserved target in another letter case, wherever a processing instruction may stand
         bad = junk(rnd.choice(["<?XML x?>", "<?Xml?>", "<?xmL version=\"1.0\"?>", "<?XML?>", "<?xMl y ?>"]), "reserved-pi-target")
@@ -799,6 +804,15 @@ def scope_exit_docs():
                 b = E(inner_ns if bdecl else "", "b", decls=bdecl, kids=kids)
                 root = E("", "a", decls=[("p", "u1")], kids=[b, y])
                 docs.append({"before": [], "root": root, "after": []})
+        if any(px != "" and u == "u2" for px, u in bdecl):
+            # ... and the inner binding is USED inside (by the inner element itself, by an element or by an attribute in it)
+            # right before the outer one is needed again
+            for use in ("self", "elem", "attr"):
+                for tail in ("elem", "attr", "both"):
+                    y = E("u1" if tail in ("elem", "both") else "", "b", attrs=[("u1", "a", [118])] if tail in ("attr", "both") else [])
+                    kids = {"self": [], "elem": [E("u2", "c")], "attr": [E(inner_ns, "c", attrs=[("u2", "a", [118])])]}[use]
+                    b = E("u2" if use == "self" else inner_ns, "b", decls=bdecl, kids=kids)
+                    docs.append({"before": [], "root": E("", "a", decls=[("p", "u1")], kids=[b, y]), "after": []})
     return docs
 
 
